@@ -101,14 +101,20 @@ Definition close_P (a b : Q) : Prop := (Qabs (a - b) <= tol * (1 + Qabs b))%Q.
 Definition fd_close_P (a b : Q) : Prop :=
   (Qabs (a - b) <= (2 # 10000) * (Qabs a + Qabs b) + (1 # 1000000))%Q.
 
+(** coordinate-wise: the gradient is within the finite-difference tolerance of the central difference
+    for one of the two step sizes *)
+Inductive fd_match_P : list Q -> list Q -> list Q -> Prop :=
+| fdm_nil : fd_match_P [] [] []
+| fdm_cons a b c g f1 f2 : fd_close_P a b \/ fd_close_P a c -> fd_match_P g f1 f2 -> fd_match_P (a :: g) (b :: f1) (c :: f2).
+
 Record step_property (s : hstep) : Prop := {
   sp_beta : (0 < h_beta s)%Q;
   sp_var : (0 < h_var s)%Q;
   (* the value the long-lived object returns is the value of a fresh object on the CURRENT surrogate *)
   sp_val : forall v, h_val s = Some v -> close_P v (h_fval s);
   (* so is its gradient, and it is the finite-difference derivative of the current acquisition function *)
-  sp_grad : forall g, h_grad s = Some g -> Forall2 close_P g (h_fgrad s) /\ Forall2 fd_close_P g (h_fd s);
-  sp_fresh : Forall2 fd_close_P (h_fgrad s) (h_fd s)
+  sp_grad : forall g, h_grad s = Some g -> Forall2 close_P g (h_fgrad s) /\ fd_match_P g (h_fd s) (h_fd2 s);
+  sp_fresh : fd_match_P (h_fgrad s) (h_fd s) (h_fd2 s)
 }.
 
 Definition hist_property (h : hist_case) : Prop :=
@@ -120,6 +126,14 @@ Proof. unfold closeb, close, close_P. apply Qle_bool_iff. Qed.
 
 Lemma fd_close_sound a b : fd_close a b = true -> fd_close_P a b.
 Proof. unfold fd_close, fd_close_P. apply Qle_bool_iff. Qed.
+
+Lemma fd_match_sound : forall g f1 f2, fd_match g f1 f2 = true -> fd_match_P g f1 f2.
+Proof.
+  induction g as [|a g IH]; intros [|b f1] [|c f2] H; simpl in H; try discriminate; constructor.
+  - apply andb_true_iff in H. destruct H as [H _]. apply orb_true_iff in H.
+    destruct H as [H|H]; [left|right]; now apply fd_close_sound.
+  - apply IH. apply andb_true_iff in H. tauto.
+Qed.
 
 Lemma not_le_lt0 x : negb (Qle_bool x 0%Q) = true -> (0 < x)%Q.
 Proof.
@@ -140,8 +154,8 @@ Proof.
   - intros v E. rewrite E in Hval. simpl in Hval. now apply closeb_sound.
   - intros g E. rewrite E in Hgrad. simpl in Hgrad. apply andb_true_iff in Hgrad. destruct Hgrad as [G1 G2]. split.
     + eapply list_eqb_Forall2; [|exact G1]. apply closeb_sound.
-    + eapply list_eqb_Forall2; [|exact G2]. apply fd_close_sound.
-  - eapply list_eqb_Forall2; [|exact Hfresh]. apply fd_close_sound.
+    + now apply fd_match_sound.
+  - now apply fd_match_sound.
 Qed.
 
 Theorem hist_ok_sound h : hist_ok h = true -> hist_property h.
